@@ -181,7 +181,10 @@ class Provenance(Monitor):
             rp = dict(workload='retrieval', op=point, subject=fname(subject))
             w = {'op': point, 'subject': fname(subject), 'result': show(value),
                  'result_sources': sources_view(value)}
-        if point == 'signature' and args and handed_over(args[0], value):
+        translator = None
+        if point in ('signature', 'forged_signature') and args and type(args[0]).__name__ == '_PokTranslator':
+            translator = args[0]
+        if translator is None and point == 'signature' and args and handed_over(args[0], value):
             # the object (or something in its __wrapped__ chain) carries this very signature object as
             # __signature__: plain retrieval hands it back as it is -- its provenance is whatever the one
             # who stored it wrote (the repository's tests store hand-made ones), not sigtools' doing
@@ -198,8 +201,10 @@ class Provenance(Monitor):
             self.rel_mask(args, kwargs, value, w, rp)
         elif point == '_mask':
             self.rel_partial(args, value, w, rp)
-        elif point == 'signature':
+        elif point == 'signature' and translator is None:
             self.rel_plain(args, value, w, rp)
+        if translator is not None:
+            self.rel_modifier(translator, point, value, w, rp)
 
     # --------------------------------------------------------- structural
     def structural(self, point, value, inputs, w, rp):
@@ -417,6 +422,32 @@ class Provenance(Monitor):
                 if [id(c) for c in lst] != [id(pobj)]:
                     ctx.violation('C08', 'Provenance', 'partial-absorbed-keyword-source',
                                   'keyword %r absorbed by **kwargs is not sourced to the partial object' % name, w, rp)
+
+    def rel_modifier(self, t, point, value, w, rp):
+        """'Wrapper objects created by modifiers replace the function they wrap consistently in
+        both maps': in what retrieval reports for the wrapper, the wrapped function appears in no
+        list and has no depth; the wrapper is at depth 0 and is credited with every parameter of
+        its own def."""
+        ctx = self.ctx
+        ctx.count('C08.rel_modifier')
+        raw = getattr(t, 'func', None)
+        src = value.sources
+        depths = src.get(DEPTHS, {})
+        in_lists = any(any(c is raw for c in v) for k, v in src.items() if k != DEPTHS)
+        in_depths = any(c is raw for c in depths)
+        if in_lists or in_depths:
+            ctx.violation('C08', 'Provenance', 'modifier-wrapped-function-still-listed',
+                          'the function wrapped by a modifiers wrapper appears in %s of the wrapper\'s signature' % (
+                              'sources and depths' if in_lists and in_depths else ('sources' if in_lists else 'depths')), w, rp)
+        d0 = [d for c, d in depths.items() if c is t]
+        if d0 != [0]:
+            ctx.violation('C08', 'Provenance', 'modifier-wrapper-not-at-depth-0',
+                          'the modifiers wrapper is not at depth 0 in its own signature (%r)' % (d0,), w, rp)
+        own = own_names(t) or set()
+        missing = [n for n in value.parameters if n in own and not any(c is t for c in src.get(n, ()))]
+        if missing and point == 'signature':
+            ctx.violation('C08', 'Provenance', 'modifier-wrapper-not-credited',
+                          'parameters %s of the wrapped def are not sourced to the modifiers wrapper' % missing, w, rp)
 
     def rel_plain(self, args, value, w, rp):
         ctx = self.ctx
